@@ -11,6 +11,7 @@ conditions whose failure breaks it, encoder against decoder directly (no third p
 (c) fixed bits: what the encoder writes as constant is what the decoder compares;
 (d) every value the decoder can produce for a field is accepted by the encoder's range check."""
 from . import rustcommon as rc
+from . import c05
 from .. import rslayout, sym
 from ..rslayout import DecoderLayout
 
@@ -216,6 +217,7 @@ def run(rep, tier, seed):
                 continue
             stats["items"] += compare(rep, where, E, dl.items, eev.env)
             stats["types"] += 1
+            c05.consistent_values_accepted(rep, name, ty, "encode_partial" if is_child else "encode", eev, r, stats)
             # (c') child: encode = parent layout with encode_partial in the payload slot; decode = parent decode +
             # decode_partial over parent.payload
             if is_child:
@@ -240,12 +242,17 @@ def run(rep, tier, seed):
                 samples.append({"description": name, "type": ty, "encoder_items": [x["k"] for x in E][:8],
                                 "decoder_items": [x["k"] for x in dl.items][:8]})
     rep.coverage.update({
-        "programs": stats["types"], "disagreements_checked": stats["items"], "samples": samples,
+        "programs": stats["types"], "disagreements_checked": stats["items"] + stats.get("consistent_cells", 0),
+        "samples": samples, "consistent_presence_patterns_evaluated": stats.get("consistent_cells", 0),
+        "inconsistency_checks_found": stats.get("icv_checks", 0),
         "explanation": "encoder layout vs decoder layout compared directly per declaration (own fields; children through "
                        "encode_partial/decode_partial), incl. symmetric derivation of size/count/element-size/flag fields "
                        "and decoder-range within encoder-accepted range",
     })
     rep.assumptions += ["equality of Vec/Option contents as runtime values follows from (a)-(d), C01, C05 and the bytes "
                         "contracts; that implication is argued in DESIGN.md, not machine-checked"]
+    if stats.get("consistent_cells", 0) < 100:
+        rep.add("C02|coverage-floor|presence", f"only {stats.get('consistent_cells', 0)} consistent presence patterns evaluated "
+                f"(floor 100)", "corpus")
     if stats["types"] < 300:
         rep.add("C02|coverage-floor", f"only {stats['types']} types compared (floor 300)", "corpus")
